@@ -9,6 +9,7 @@ import NimaVerif.Drv.Cost
 import NimaVerif.Drv.Effects
 import NimaVerif.Drv.Scope
 import NimaVerif.Drv.Registry
+import NimaVerif.Drv.Layout
 /-!
 Line-protocol driver: one request per line on stdin, one reply per line on stdout.
 Each topic has its own handler module `NimaVerif/Drv/<Topic>.lean` exporting
@@ -27,7 +28,8 @@ def handlers : List (SExp → Option SExp) := [
   Nima.Drv.Cost.handle,
   Nima.Drv.Effects.handle,
   Nima.Drv.Scope.handle,
-  Nima.Drv.Registry.handle
+  Nima.Drv.Registry.handle,
+  Nima.Drv.Layout.handle
 ]
 
 def dispatch (req : SExp) : SExp :=
